@@ -404,6 +404,16 @@ run_config(const gcfg *c, int deep)
         for (int r = 0; r < NRG; r++)
             if (RG[r].sx == 0 && RG[r].sy == 0 && RG[r].cx == c->xd && RG[r].cy == c->yd && (RG[r].nullstride || (RG[r].tx == 1 && RG[r].ty == 1)))
                 wh[wh[0] < 0 ? 0 : 1] = r;
+        /* the first write to the new image may be any region: the rest of the raster is laid down as fill pixels with it */
+        for (int a = 0; a < NRG; a++) {
+            if (a == wh[0] || a == wh[1])
+                continue;
+            if (!RG[a].nullstride && ((RG[a].tx > 1 && RG[a].cx > 1) || (RG[a].ty > 1 && RG[a].cy > 1)))
+                continue; /* sub-sampled first writes: recorded separately for plain storage (F31) */
+            w[0] = a;
+            if (run_history(c, w, 1, 0, 1))
+                return;
+        }
         for (int i = 0; i < 2; i++) {
             if (wh[i] < 0)
                 continue;
